@@ -192,18 +192,11 @@ fn run_batch(exe: &Path, dir: &Path, tag: usize, lines: &[String]) -> Vec<(Strin
     results
 }
 
-pub fn main(args: &Args) {
-    let reg = registry();
-    let mut rec = Recorder::new(RULE);
-    let cases = match args.replay_cases() {
-        Some(c) => c,
-        None => {
-            let mut c = crate::corpus_cases("C04");
-            c.extend(generate(&reg, args));
-            c
-        }
-    };
-    let cases: Vec<Vec<String>> = cases.into_iter().filter(|c| !c.is_empty() && c[0].starts_with("case")).collect();
+pub type OpResult = (String, Vec<(String, String)>);
+
+/// Run all cases in child processes (batches of whole cases, a small pool of threads, one child per
+/// batch, resumed after a crash). Returns the batches (flattened op lines) and one result per line.
+pub fn run_in_children(cases: &[Vec<String>], args: &Args) -> (Vec<(usize, Vec<String>)>, Vec<Vec<OpResult>>) {
     let exe: PathBuf = std::env::current_exe().expect("current exe");
     let dir = args.out.join("child");
     fs::create_dir_all(&dir).unwrap();
@@ -229,6 +222,22 @@ pub fn main(args: &Args) {
         slots.into_iter().map(|m| m.into_inner().unwrap().unwrap()).collect()
     };
     let _ = fs::remove_dir_all(&dir);
+    (batches, results)
+}
+
+pub fn main(args: &Args) {
+    let reg = registry();
+    let mut rec = Recorder::new(RULE);
+    let cases = match args.replay_cases() {
+        Some(c) => c,
+        None => {
+            let mut c = crate::corpus_cases("C04");
+            c.extend(generate(&reg, args));
+            c
+        }
+    };
+    let cases: Vec<Vec<String>> = cases.into_iter().filter(|c| !c.is_empty() && c[0].starts_with("case")).collect();
+    let (batches, results) = run_in_children(&cases, args);
     let mut crashes = 0u64;
     for ((_, lines), res) in batches.iter().zip(results) {
         let mut nontrivial = false;
